@@ -443,6 +443,11 @@ def write_evidence(batch, wall, exit_code, lines):
     os.makedirs(edir, exist_ok=True)
     with open(os.path.join(edir, f"{prop}.json"), "w") as f:
         json.dump(doc, f, indent=1, default=str)
+    if batch.tier == "thorough":
+        # keep the deepest exploration next to the per-change evidence (the latter is rewritten by every quick run)
+        os.makedirs(os.path.join(edir, "thorough"), exist_ok=True)
+        with open(os.path.join(edir, "thorough", f"{prop}.json"), "w") as f:
+            json.dump(doc, f, indent=1, default=str)
 
 
 # ---------------------------------------------------------------------------
